@@ -1023,6 +1023,15 @@ def refresh(
             if mode in ["incremental", "merge"] and preagg_obj.time_dimension and preagg_obj.granularity:
                 watermark_column = f"{preagg_obj.time_dimension}_{preagg_obj.granularity}"
 
+                # These modes read only the buckets after (incremental) or from (merge) the watermark:
+                # refresh() substitutes {WATERMARK} in the source statement, so it needs the predicate
+                time_dim = model_obj.get_dimension(preagg_obj.time_dimension)
+                head, sep, tail = source_sql.rpartition("\nGROUP BY")
+                if time_dim and sep:
+                    bucket = f"DATE_TRUNC('{preagg_obj.granularity}', {time_dim.sql_expr})"
+                    comparison = ">" if mode == "incremental" else ">="
+                    source_sql = f"{head}\nWHERE {bucket} {comparison} {{WATERMARK}}{sep}{tail}"
+
             # Refresh
             typer.echo(f"Refreshing {model_name}.{preagg_obj.name} ({mode})...", err=True)
             result = preagg_obj.refresh(
